@@ -45,6 +45,14 @@ class GsProfile(session.Profile):
         return s
 
     def nontrivial_key(self, world, step):
+        if step["op"] in ("qc_model", "swap", "optimize_ofs", "evolve_ofs"):
+            # C17 operations: distinct = (operation, algorithm / scheme, swap schedule, size)
+            hs = [step.get(k) for k in ("out", "a") if isinstance(step.get(k), str) and step.get(k) in world.h]
+            bonds = tuple(world.h[hs[0]].obj.bond_dims) if hs else ()
+            if hs and max(bonds) <= 1 and step["op"] != "qc_model":
+                return None
+            sched = "".join(str(d) for d in step.get("decisions", []))
+            return f"{step['op']}:{step.get('algo', step.get('ofs', ''))}:{step.get('swap_jw', '')}:{step.get('k', '')}:{sched}:{bonds}"
         if step["op"] != "optimize":
             return None
         outs = step["out"] if isinstance(step["out"], list) else [step["out"]]
